@@ -149,6 +149,18 @@ def close_pool():
         _POOL = None
 
 
+def impl_isolated(args):
+    """one case on the real engine in a WORKER process (the main process never runs library code: a library that hangs
+    may leave threads behind that keep spinning, and in the main process they would slow the whole check down);
+    the pool is re-created when needed - callers that are done with it call close_pool()"""
+    _flavor, _case, timeout = args
+    try:
+        return pool().apply_async(_impl_worker, (args,)).get(timeout * 2 + 20)
+    except mp.TimeoutError:
+        close_pool()
+        return ("hang", None)
+
+
 def run_impl_many(flavor, cases, timeout=6, slow_retries=4):
     """run every case on the real engine in the worker pool; a worker that stops answering (a hang the
     in-process watchdog could not unwind) makes the whole batch fall back to one-by-one execution.
